@@ -113,7 +113,17 @@ var (
 
 // smEnsure computes the probe suite and the observations of freshly built middlewares (lazily: a panic of
 // the code under test must surface inside a check, not during package initialisation).
-func smEnsure() { smOnce.Do(smPrepare) }
+// A panic of the code under test while the reference observations are taken is remembered and reported, identically,
+// by every judge that needs them (a sync.Once alone would swallow it after the first caller).
+func smEnsure() *vlib.Failure {
+	smOnce.Do(func() { smPrepareFailure = vlib.Guard(func() *vlib.Failure { smPrepare(); return nil }) })
+	if smPrepareFailure != nil {
+		return vlib.Failf("while serving the probe suite on a freshly built middleware: %s", smPrepareFailure.Detail)
+	}
+	return nil
+}
+
+var smPrepareFailure *vlib.Failure
 
 func smPrepare() {
 	smSuite = suiteFor(smA, smB, smC, smD, smE)
@@ -169,7 +179,9 @@ func c09Check(m *cors.Middleware, r smRef, after string) *vlib.Failure {
 }
 
 func c09Judge(k c09Case) *vlib.Failure {
-	smEnsure()
+	if f := smEnsure(); f != nil {
+		return f
+	}
 	if k.DiagReq != nil {
 		return c09Diag(k.DiagCfg, *k.DiagReq)
 	}
@@ -219,6 +231,13 @@ func c09Diag(name string, r vlib.Req) *vlib.Failure {
 	b := vlib.Serve(mOn.Wrap(innerOn), &innerOn.Calls, r, nil)
 	if a.ExtraWrites > 0 || b.ExtraWrites > 0 {
 		return vlib.Failf("configuration %s: the middleware calls WriteHeader more than once for %s (debug off: %d extra calls, debug on: %d)", name, r, a.ExtraWrites, b.ExtraWrites)
+	}
+	if isPre := r.Method == "OPTIONS" && len(r.Hdr["Origin"]) > 0 && len(r.Hdr["Access-Control-Request-Method"]) > 0; isPre && a.Status/100 != 2 {
+		for hk := range a.Hdr {
+			if strings.HasPrefix(hk, "Access-Control-") {
+				return vlib.Failf("configuration %s, debug off: the failing preflight %s carries %s=%q (diagnostics belong to debug mode only)", name, r, hk, a.Hdr[hk])
+			}
+		}
 	}
 	if a.Sig() == b.Sig() {
 		return nil
@@ -326,7 +345,10 @@ func checkC09(c *vlib.Ctx) (string, string) {
 	if ck.Replay() {
 		return levelMC, rule
 	}
-	smEnsure()
+	if f := smEnsure(); f != nil {
+		ck.Report(c09Case{Init: "zero"}, f)
+		return levelMC, rule
+	}
 	for _, init := range []string{"new(A)", "zero"} {
 		toCase := func(hist []uint8) c09Case {
 			k := c09Case{Init: init}
